@@ -207,6 +207,7 @@ def knobs(rng):
         max_stmts=rng.choice([6, 10]),
         const_sizes=rng.choice([0.2, 0.4]),
         hostile_names=rng.random() < 0.4,
+        p_idxarg=rng.choice([0.25, 0.7]),
     )
 
 
